@@ -11,6 +11,7 @@ import (
 	"sync"
 	"sync/atomic"
 	"testing"
+	"testing/iotest"
 	"time"
 
 	"go.miragespace.co/specter/spec/tun"
@@ -29,8 +30,9 @@ import (
 // A user is a writer goroutine (payload in chunks) and a reader goroutine.
 
 type c40Side struct {
-	Pair      string `json:"pair"` // bufconn | netpipe
-	Buf       int    `json:"buf"`  // bufconn only
+	Pair      string `json:"pair"`            // bufconn | netpipe | scripted (no user: the stream itself plays a side that sends Payload and finishes)
+	Final     string `json:"final,omitempty"` // scripted: eof-separate | eof-with-data | err-separate | err-with-data (how Read reports the end relative to the last bytes)
+	Buf       int    `json:"buf"`             // bufconn only
 	Payload   int    `json:"payload"`
 	Chunks    []int  `json:"chunks"`     // cycled
 	ReadSizes []int  `json:"read_sizes"` // cycled
@@ -50,16 +52,23 @@ type c40Prog struct {
 	CloseAfter int        `json:"close_after"` // abrupt: the ender closes after writing this many bytes
 	Fault      *c40Fault  `json:"fault,omitempty"`
 	Swap       bool       `json:"swap"` // call Pipe(y1, x2) instead of Pipe(x2, y1)
+	// how the pipe-facing streams hand out what they read (io.Reader allows all of it)
+	ReadCap [2]int  `json:"read_cap"` // > 0: a Read returns at most this many bytes (short reads)
+	DataErr [2]bool `json:"data_err"` // the last bytes come together with the terminating error (abrupt mode only: it needs one read of look-ahead)
 }
 
 var errC40Injected = errors.New("injected stream failure")
 
 type c40Stream struct {
-	inner  io.ReadWriteCloser
-	name   string
-	closes atomic.Int32
-	nRead  atomic.Int64
-	nWrote atomic.Int64
+	inner io.ReadWriteCloser
+	rd    io.Reader // what Read reads from (inner, or a look-ahead reader around it)
+	cap   int
+	// a Write on the underlying stream failed before the pipe had closed this stream
+	innerWriteErr atomic.Bool
+	name          string
+	closes        atomic.Int32
+	nRead         atomic.Int64
+	nWrote        atomic.Int64
 	// fault injection (-1: none)
 	readFailAfter  int64
 	writeFailAfter int64
@@ -84,7 +93,10 @@ func (s *c40Stream) Read(p []byte) (int, error) {
 			p = p[:left]
 		}
 	}
-	n, err := s.inner.Read(p)
+	if s.cap > 0 && len(p) > s.cap {
+		p = p[:s.cap]
+	}
+	n, err := s.rd.Read(p)
 	s.nRead.Add(int64(n))
 	return n, err
 }
@@ -111,6 +123,9 @@ func (s *c40Stream) Write(p []byte) (int, error) {
 	}
 	n, err := s.inner.Write(p)
 	s.nWrote.Add(int64(n))
+	if err != nil && s.closes.Load() == 0 {
+		s.innerWriteErr.Store(true)
+	}
 	return n, err
 }
 
@@ -122,6 +137,60 @@ func (s *c40Stream) Close() error {
 	if s.inner != nil {
 		return s.inner.Close()
 	}
+	return nil
+}
+
+// c40Mem is a stream that plays a whole side: Read hands out the payload in
+// generated chunk sizes and reports the end as configured, Write collects what
+// the side receives.
+type c40Mem struct {
+	mu       sync.Mutex
+	payload  []byte
+	off      int
+	chunks   []int
+	k        int
+	withData bool
+	termErr  error
+	finished bool
+	closed   bool
+	sink     []byte
+}
+
+func (m *c40Mem) Read(p []byte) (int, error) {
+	m.mu.Lock()
+	defer m.mu.Unlock()
+	if m.closed {
+		return 0, io.ErrClosedPipe
+	}
+	if m.finished || m.off == len(m.payload) {
+		m.finished = true
+		return 0, m.termErr
+	}
+	n := min(m.chunks[m.k%len(m.chunks)], len(p), len(m.payload)-m.off)
+	m.k++
+	copy(p, m.payload[m.off:m.off+n])
+	m.off += n
+	if m.off == len(m.payload) && m.withData {
+		m.finished = true
+		return n, m.termErr
+	}
+	return n, nil
+}
+
+func (m *c40Mem) Write(p []byte) (int, error) {
+	m.mu.Lock()
+	defer m.mu.Unlock()
+	if m.closed {
+		return 0, io.ErrClosedPipe
+	}
+	m.sink = append(m.sink, p...)
+	return len(p), nil
+}
+
+func (m *c40Mem) Close() error {
+	m.mu.Lock()
+	m.closed = true
+	m.mu.Unlock()
 	return nil
 }
 
@@ -159,12 +228,32 @@ func c40WD() time.Duration {
 }
 
 func runC40(p c40Prog) c40Run {
-	x1, x2 := c40Pair(p.Sides[0])
-	y2, y1 := c40Pair(p.Sides[1])
-	user := [2]net.Conn{x1, y2}
+	payload := [2][]byte{c40Payload(0, p.Sides[0].Payload), c40Payload(1, p.Sides[1].Payload)}
+	var user [2]net.Conn // nil for a scripted side
+	var mem [2]*c40Mem
 	str := [2]*c40Stream{
-		{inner: x2, name: "x2", readFailAfter: -1, writeFailAfter: -1},
-		{inner: y1, name: "y1", readFailAfter: -1, writeFailAfter: -1},
+		{name: "x2", readFailAfter: -1, writeFailAfter: -1},
+		{name: "y1", readFailAfter: -1, writeFailAfter: -1},
+	}
+	for i := 0; i < 2; i++ {
+		sd := p.Sides[i]
+		if sd.Pair == "scripted" {
+			m := &c40Mem{payload: payload[i], chunks: sd.Chunks, termErr: io.EOF}
+			m.withData = sd.Final == "eof-with-data" || sd.Final == "err-with-data"
+			if sd.Final == "err-separate" || sd.Final == "err-with-data" {
+				m.termErr = errC40Injected
+			}
+			mem[i] = m
+			str[i].inner = m
+		} else {
+			u, pipeEnd := c40Pair(sd)
+			user[i], str[i].inner = u, pipeEnd
+		}
+		str[i].rd = str[i].inner
+		if p.DataErr[i] {
+			str[i].rd = iotest.DataErrReader(str[i].inner)
+		}
+		str[i].cap = p.ReadCap[i]
 	}
 	if p.Fault != nil {
 		if p.Fault.Op == "read" {
@@ -173,7 +262,6 @@ func runC40(p c40Prog) c40Run {
 			str[p.Fault.Stream].writeFailAfter = int64(p.Fault.AfterBytes)
 		}
 	}
-	payload := [2][]byte{c40Payload(0, p.Sides[0].Payload), c40Payload(1, p.Sides[1].Payload)}
 
 	var (
 		res      c40Run
@@ -268,9 +356,20 @@ func runC40(p c40Prog) c40Run {
 		}
 	}
 	for i := 0; i < 2; i++ {
+		if user[i] == nil {
+			continue
+		}
 		wg.Add(2)
 		go writer(i)
 		go reader(i)
+	}
+	closeAll := func() {
+		for i := 0; i < 2; i++ {
+			if user[i] != nil {
+				user[i].Close()
+			}
+			str[i].inner.Close()
+		}
 	}
 
 	// 1. the pipe reports completion
@@ -290,10 +389,7 @@ func runC40(p c40Prog) c40Run {
 			res.inflight = fmt.Sprintf("%v; closes x2=%d y1=%d; received X=%d Y=%d", status, str[0].closes.Load(), str[1].closes.Load(), received[0].Load(), received[1].Load())
 			stMu.Unlock()
 			res.hang = true
-			for i := 0; i < 2; i++ {
-				user[i].Close()
-				str[i].inner.Close()
-			}
+			closeAll()
 			return res
 		}
 	}
@@ -315,10 +411,7 @@ func runC40(p c40Prog) c40Run {
 			res.inflight = fmt.Sprintf("users still blocked after the pipe completed: %v", status)
 			stMu.Unlock()
 		}
-		for i := 0; i < 2; i++ {
-			user[i].Close()
-			str[i].inner.Close()
-		}
+		closeAll()
 		if res.hang {
 			return res
 		}
@@ -326,6 +419,14 @@ func runC40(p c40Prog) c40Run {
 	}
 
 	// 4. byte streams
+	for i := 0; i < 2; i++ {
+		if mem[i] != nil {
+			mem[i].mu.Lock()
+			got[i] = append([]byte{}, mem[i].sink...)
+			mem[i].mu.Unlock()
+			wrote[i] = mem[i].off
+		}
+	}
 	for i := 0; i < 2; i++ { // user i received got[i], written by user 1-i
 		src := 1 - i
 		sent := payload[src]
@@ -345,6 +446,10 @@ func runC40(p c40Prog) c40Run {
 			if src == p.Ender {
 				mustAll, why = true, "the user that finished first had written them before closing"
 			}
+		case "scripted":
+			if src == p.Ender {
+				mustAll, why = true, "the scripted side handed all of them to the pipe ("+p.Sides[src].Final+") and nothing made a write to it fail"
+			}
 		case "fault":
 			f := p.Fault
 			if f.Op == "read" && f.Stream == src && p.Sides[i].Payload == 0 {
@@ -356,7 +461,9 @@ func runC40(p c40Prog) c40Run {
 		}
 		if mustAll && len(got[i]) != len(sent) {
 			msg := fmt.Sprintf("user %d received %d of the %d bytes user %d wrote (%s); reader ended with %v", i, len(got[i]), len(sent), src, why, readErr[i])
-			if p.Mode == "abrupt" && p.Sides[i].Payload > 0 {
+			if p.Mode == "abrupt" && p.Sides[i].Payload > 0 && str[src].innerWriteErr.Load() {
+				// the listed finding's mechanism: the opposite direction failed writing to the
+				// side that had finished and tore both streams down
 				res.truncated, res.truncatedMsg = true, msg
 			} else {
 				res.viols = append(res.viols, c39Viol{"bytes-lost", msg})
@@ -379,6 +486,18 @@ func runC40(p c40Prog) c40Run {
 	}
 	if p.Mode == "abrupt" && p.CloseAfter > 0 {
 		res.nontriv = true
+	}
+	if p.Mode == "scripted" {
+		lab["scripted-final:"+p.Sides[p.Ender].Final] = true
+		if p.Sides[p.Ender].Payload > 0 {
+			res.nontriv = true
+		}
+	}
+	if p.ReadCap[0] > 0 || p.ReadCap[1] > 0 {
+		lab["short-reads"] = true
+	}
+	if p.DataErr[0] || p.DataErr[1] {
+		lab["last-bytes-with-error"] = true
 	}
 	if max(len(got[0]), len(got[1])) > tun.BufferSize {
 		lab["larger-than-copy-buffer"] = true
@@ -424,11 +543,36 @@ func genC40(t *rapid.T) c40Prog {
 	}
 	p.Swap = rapid.Bool().Draw(t, "swap")
 	p.Ender = rapid.IntRange(0, 1).Draw(t, "ender")
-	switch rapid.IntRange(0, 9).Draw(t, "mode") {
+	for i := range p.ReadCap { // short reads from the pipe-facing streams
+		if rapid.IntRange(0, 2).Draw(t, "readCap?") == 0 {
+			lo := 1
+			if p.Sides[i].Payload > 4000 {
+				lo = 64
+			}
+			p.ReadCap[i] = rapid.OneOf(rapid.IntRange(lo, lo+15), rapid.IntRange(lo, 5000)).Draw(t, "readCap")
+		}
+	}
+	switch rapid.IntRange(0, 12).Draw(t, "mode") {
+	case 10, 11, 12:
+		// one side is played by a scripted stream that sends its payload and finishes; how
+		// Read reports the end (with or after the last bytes, EOF or error) is generated
+		p.Mode = "scripted"
+		e := &p.Sides[p.Ender]
+		e.Pair = "scripted"
+		e.Final = rapid.SampledFrom([]string{"eof-separate", "eof-with-data", "err-separate", "err-with-data"}).Draw(t, "final")
+		if e.Payload == 0 && rapid.IntRange(0, 3).Draw(t, "keepEmpty") != 0 {
+			e.Payload = rapid.IntRange(1, 300).Draw(t, "scriptedPayload")
+		}
+		if rapid.IntRange(0, 2).Draw(t, "otherSilent") == 0 {
+			p.Sides[1-p.Ender].Payload = 0
+		}
 	case 0, 1, 2:
 		p.Mode = "orderly"
 	case 3, 4, 5, 6:
 		p.Mode = "abrupt"
+		for i := range p.DataErr {
+			p.DataErr[i] = rapid.IntRange(0, 2).Draw(t, "dataErr") == 0
+		}
 		p.CloseAfter = rapid.OneOf(rapid.Just(p.Sides[p.Ender].Payload), rapid.IntRange(0, p.Sides[p.Ender].Payload)).Draw(t, "closeAfter")
 		if rapid.IntRange(0, 2).Draw(t, "otherSilent") == 0 {
 			p.Sides[1-p.Ender].Payload = 0
@@ -527,7 +671,7 @@ func c40Witness() (reproduced bool, detail string) {
 
 func TestC40(t *testing.T) {
 	rec := ev.New(t, "C40")
-	rec.Rule("rapid-generated programmes: two users connected through tun.Pipe over bufconn (buffer 1..64 or 8192) and net.Pipe pairs, payloads 0..40000 bytes each way (above the 16 KiB copy buffer in a fraction of the cases), cycled chunk / read sizes and Gosched yields, either argument order. Modes: orderly (the ender closes after sending everything and receiving everything), abrupt (the ender closes after k of its bytes, the other user silent or still sending), fault (the stream facing one user returns an error from Read or Write at a byte count). Oracle: the error channel closes; at that moment both streams had Close called; every user received a prefix of what the other wrote; the whole of it in orderly mode, for the user that finished first, and for bytes read before an injected read error when nothing travels the other way. Non-trivial: both users wrote, or a fault triggered, or the ender wrote before closing. Distinct = distinct programmes.")
+	rec.Rule("rapid-generated programmes: two users connected through tun.Pipe over bufconn (buffer 1..64 or 8192) and net.Pipe pairs, payloads 0..40000 bytes each way (above the 16 KiB copy buffer in a fraction of the cases), cycled chunk / read sizes and Gosched yields, either argument order. Modes: orderly (the ender closes after sending everything and receiving everything), abrupt (the ender closes after k of its bytes, the other user silent or still sending), fault (the stream facing one user returns an error from Read or Write at a byte count). scripted (one side is a scripted stream that hands out its payload in generated short reads and reports its end as EOF or an error, either after or together with the last bytes). The pipe-facing streams optionally cap every Read (short reads) and, in abrupt mode, deliver their last bytes together with the terminating error (look-ahead reader). Oracle: the error channel closes; at that moment both streams had Close called; every user received a prefix of what the other wrote; the whole of it in orderly mode, for the user or scripted side that finished first, and for bytes read before an injected read error when nothing travels the other way. Non-trivial: both users wrote, or a fault triggered, or the ender (user or scripted side) wrote before finishing. Distinct = distinct programmes.")
 	rec.Assume("bufconn and net.Pipe pairs behave as byte streams (C39 covers bufconn)",
 		"which errors appear on the channel is not checked, only that it is closed",
 		"watchdog 30 s on completion with the must-reproduce rule (a single unreproduced hit is inconclusive)")
